@@ -208,6 +208,9 @@ class Env:
         self.objs_by_call: list[dict] = []
         self.call_has_handler = False
         self.target = None
+        self.call_t0 = self.clock.t
+        d = self.case.get("cfg", {}).get("deadline")
+        self.deadline_ticks = d if isinstance(d, int) else None
         self.cls_objs: list = []  # Classification objects handed out by classifiers
         self.strat_idx: dict[str, int] = {}
         self.faults: dict = {}  # (callback name, invocation index | "always") -> exception type name
@@ -236,6 +239,12 @@ class Env:
             if j:
                 self.clock.jump_wall(float(j))
 
+    def _advance_until(self, delta: int) -> None:
+        """Advance the clock to (call start + deadline + delta ticks) if that is in the future."""
+        target = self.call_t0 + g(self.deadline_ticks + delta)
+        if target > self.clock.t:
+            self.clock.t = target
+
     # --- the operation -------------------------------------------------------
     def _script_entry(self, i: int) -> dict:
         script = self.call["script"]
@@ -246,15 +255,18 @@ class Env:
     def op_body(self) -> Any:
         i = self.n["op"]
         self.n["op"] += 1
-        self.trace.append(("op", i + 1, self.now()))
+        self.trace.append(("op", i + 1, self.now(), self.clock.rel()))
         self.jump("op", i)
         e = self._script_entry(i)
         dur = e.get("dur", 0)
         if e.get("dur_s") is not None:
             self.clock.t += e["dur_s"]
+        elif e.get("until") is not None and self.deadline_ticks is not None:
+            self._advance_until(e["until"])
         else:
             self.clock.t += g(dur)
         kind = e["kind"]
+        self.trace.append(("op_end", i + 1, self.now(), kind, self.clock.rel()))
         if kind == "ok":
             r = Res(i, None)
             self.objs[i] = r
@@ -400,8 +412,12 @@ class Env:
         if self.call.get("overshoot_s"):
             o = self.call["overshoot_s"]
             self.clock.t += o[i] if i < len(o) else 0.0
+        elif isinstance(extra, dict):
+            if self.deadline_ticks is not None:
+                self._advance_until(extra["until"])
         else:
             self.clock.t += g(extra)
+        self.trace.append(("sleep_end", self.now(), self.clock.rel()))
 
     def on_sleep(self, where: str, s: float) -> None:
         i = self.tick("sleeper")
@@ -712,12 +728,13 @@ def run_case(case: dict, entry: str, *, faults: dict | None = None, env: Env | N
             env.call_idx = j
             for k in env.n:
                 env.n[k] = 0
+            env.strat_idx = {}
             env.objs = {}
             env.objs_by_call.append(env.objs)
             if call.get("advance"):
                 env.clock.t += g(call["advance"])
-            env.trace.append(("call_begin", j, env.now()))
             env.call_t0 = env.clock.t
+            env.trace.append(("call_begin", j, env.now()))
             try:
                 r = runner()
                 env.trace.append(("call_end", j, "return", r, env.now()))
